@@ -595,6 +595,41 @@ impl GraphEngine {
     }
 }
 
+#[cfg(nervusdb_verif)]
+impl GraphEngine {
+    /// verif hook: (properties_root, stats_root, [(segment id, meta page id)]) as currently published.
+    pub fn verif_roots(&self) -> (u64, u64, Vec<(u64, u64)>) {
+        let segs = self
+            .published_segments
+            .read()
+            .unwrap()
+            .iter()
+            .map(|s| (s.id.0, s.meta_page_id))
+            .collect();
+        (
+            self.properties_root.load(Ordering::SeqCst),
+            self.stats_root.load(Ordering::SeqCst),
+            segs,
+        )
+    }
+
+    /// verif hook: read-only access to the pager.
+    pub fn verif_with_pager<R>(&self, f: impl FnOnce(&Pager) -> R) -> R {
+        let pager = self.pager.read().unwrap();
+        f(&pager)
+    }
+
+    /// verif hook: (name, index id, root page) of every index catalog entry, as held in memory.
+    pub fn verif_index_entries(&self) -> Vec<(String, u32, u64)> {
+        let catalog = self.index_catalog.lock().unwrap();
+        catalog
+            .entries
+            .iter()
+            .map(|(n, d)| (n.clone(), d.id, d.root.as_u64()))
+            .collect()
+    }
+}
+
 fn build_segment_from_runs(seg_id: SegmentId, runs: &Arc<Vec<Arc<L0Run>>>) -> CsrSegment {
     // Apply the same semantics as snapshot merge: newest->oldest, key-based tombstones.
     use std::collections::{BTreeMap, HashSet};
